@@ -13,6 +13,7 @@ mod frag;
 mod handshake;
 mod framing;
 mod pid;
+mod elixir;
 
 #[global_allocator]
 static GLOBAL: alloc::Counting = alloc::Counting;
@@ -29,6 +30,7 @@ fn main() {
         "ord" => ord::run_case,
         "framing" => framing::run_case,
         "pid" => pid::run_case,
+        "elixir" => elixir::run_case,
         _ => {
             eprintln!("unknown domain {domain}");
             std::process::exit(2);
